@@ -39,6 +39,7 @@ def run(ctx):
                         "order-only vectors (agg_sig_*, messages, pkm_pairs) are consumed by order-insensitive folds (C01.5 counters, aggregate verification)"]
     c06_1(ctx)
     c06_2(ctx)
+    c06_3(ctx)
 
 
 def c06_1(ctx):
@@ -242,6 +243,7 @@ def c06_2(ctx):
         ctx.ob(R, "arm:" + variant, not bad,
                "all effects of the %s arm are commutative / order-only, all state-reading guards are symmetric" % variant,
                where=b.fn.sp, found=bad[:3] or None)
+    presence_independence(ctx, R, b, regs)
     ctx.floor(R, "effects classified", n_eff, 100)
     ctx.floor(R, "guards classified", n_guard, 150)
     ctx.sample({"rule": R, "classes": classes})
@@ -282,3 +284,105 @@ def c06_2(ctx):
         ctx.ob(R, "process_single_spend", not bad and "sum" in kinds and "map-insert(collision rejects)" in kinds,
                "per-spend bookkeeping is a sum (removal_amount), a set insert (spent_puzzles) and a map insert whose collision rejects",
                found=bad[:3] or sorted(kinds))
+
+
+# ------------------------------------------------------------------ C06.2 (presence independence) / C06.3
+def _mentions_only(t, place):
+    """does the guard term read accumulator state only through `place`?"""
+    r = [x for x in subterms(t) if isinstance(x, tuple) and len(x) == 2 and isinstance(x[0], str) and x[0].startswith(".")
+         and x[1] in ("spend", "ret", "state") and not (x[0] in IMMUTABLE_SPEND_ATTRS and x[1] == "spend")]
+    return bool(r) and all(x == place for x in r)
+
+
+def presence_independence(ctx, R, b, regs):
+    """an arm that folds its argument into an Option accumulator (first assignment vs max/min with the existing value)
+    must apply the same other checks (the mirrored impossibility guard, ephemeral bookkeeping) in both cases: the
+    verdict may not depend on whether an earlier condition of the same kind was already seen"""
+    n = 0
+    for variant, paths in sorted(regs.items()):
+        if variant.startswith("__"):
+            continue
+        places = set()
+        for ex, facts_, eff in paths:
+            for e in eff:
+                c = classify_effect(e, facts_)
+                if c in ("fold-max", "fold-min", "first-assign") and e[0] == "set":
+                    places.add(e[1])
+        for place in sorted(places, key=str):
+            part = {"Some": set(), "None": set()}
+            for ex, facts_, eff in paths:
+                pres = [v for t, v in facts_ if t == place and v in ("Some", "None")]
+                if len(pres) != 1:
+                    continue
+                rest = frozenset((str(t), v) for t, v in facts_ if not (t == place) and not _mentions_only(t, place))
+                others = frozenset(str(e)[:160] for e in eff if not (e[0] == "set" and e[1] == place))
+                part[pres[0]].add((ex[0] if isinstance(ex, tuple) else str(ex), rest, others))
+            if not part["Some"] and not part["None"]:
+                continue
+            n += 1
+            diff = part["Some"] ^ part["None"]
+            ctx.ob(R, "presence-independent:%s:%s" % (variant, place[0]), not diff,
+                   "the %s arm applies the same other checks and effects whether or not %s was already set" % (variant, place[0]),
+                   where=b.fn.sp, found=[(x[0], sorted(x[1])[:6]) for x in sorted(diff, key=str)[:2]] or None)
+    ctx.floor(R, "fold arms checked for presence independence", n, 6)
+
+
+AMOUNTS = {(".removal_amount", "ret"), (".addition_amount", "ret"), (".reserve_fee", "ret")}
+
+
+def classify_post_guard(t, v):
+    """guards of the post-loop validation: each must be invariant under permuting spends / conditions"""
+    if not isinstance(t, tuple):
+        return None
+    s = str(t)
+    if t[0] in ("Lt", "Le", "Gt", "Ge"):
+        leaves = {x for x in subterms(t) if isinstance(x, tuple) and len(x) == 2 and isinstance(x[0], str) and x[0].startswith(".") and x[1] in ("ret", "state", "spend")}
+        if leaves and leaves <= AMOUNTS:
+            return "amount-balance"
+        if t[0] == "Le" and len(leaves) == 2 and {x[0].replace("before_", "") for x in leaves} == {sorted(leaves)[0][0].replace("before_", "")} \
+                and all(x[0].endswith("_absolute") and x[1] == "ret" for x in leaves):
+            return "mirrored-impossibility-guard"
+        return None       # an ordering test on anything else (a spend index, a position) is order-dependent
+    if t[0] == "next":
+        return "iteration"
+    if t[0] in ("HashSet::contains", "HashMap::contains_key", "HashMap::get", "HashSet::is_empty", "Vec::is_empty", "HashMap::is_empty"):
+        return "membership"
+    if len(t) == 2 and isinstance(t[0], str) and t[0].startswith(".") and v in ("Some", "None"):
+        return "presence"
+    if t[0] == "is_ephemeral":
+        return "is_ephemeral"
+    if t[0] in ("Ne", "Eq") and "HashMap::values" in s:
+        return "message-balance"
+    if t[0] in ("Ne", "Eq", "eq", "ne"):
+        return "equality"
+    return None
+
+
+def c06_3(ctx):
+    R = "C06.3"
+    n = 0
+    for name in ("conditions::validate_conditions", "conditions::is_ephemeral"):
+        b = U.body(ctx, R, CC + name)
+        if not b:
+            continue
+        bad = []
+        seen = set()
+        for node in b.edge_info:
+            if b.edge_info[node][0] not in b.reach:
+                continue
+            t, lab = b.edge_condition(node)
+            f = apnf.fact(t, lab)
+            if lab[0] == "try":
+                continue
+            key = str(f[0])
+            if key in seen:
+                continue
+            seen.add(key)
+            n += 1
+            c = classify_post_guard(f[0], f[1])
+            if c is None:
+                bad.append(key[:220])
+        ctx.ob(R, "guards:" + name.split("::")[-1], not bad,
+               "every guard of %s is a permutation-invariant test (balance of sums, set membership, per-element iteration, presence, equality); "
+               "none orders spend positions" % name.split("::")[-1], where=b.fn.sp, found=bad[:4] or None)
+    ctx.floor(R, "post-loop guards classified", n, 25)
